@@ -2,7 +2,8 @@
 `IndexedFasta.get_interval_sequences` / `__getitem__` row/offset arithmetic (executed on symbolic index values `rlen offset
 lenc lenb` and interval ends `a b` with a recording file object): the position passed to `seek`, the length passed to
 `read`, the row length the code claims, the number of newline positions it deletes, the start column, the row count and
-the bytes read for a whole contig. Do not edit. -/
+the bytes read for a whole contig; `trFast*` = the same quantities of the vectorised path `_get_interval_sequences_fast`
+(string-encoded chromosomes), traced on symbolic columns of the looked-up index table. Do not edit. -/
 set_option linter.unusedVariables false
 namespace Gen.C17
 
@@ -20,7 +21,17 @@ def trNRows (a b rlen offset lenc lenb : Int) : Int :=
   (Int.fdiv ((rlen + lenc) - 1) lenc)
 def trBytesToRead (a b rlen offset lenc lenb : Int) : Int :=
   ((((Int.fdiv ((rlen + lenc) - 1) lenc) - 1) * lenb) + (rlen - (((Int.fdiv ((rlen + lenc) - 1) lenc) - 1) * lenc)))
+def trFastSeek (a b rlen offset lenc lenb : Int) : Int :=
+  (offset + (((Int.fdiv a lenc) * lenb) + (Int.fmod a lenc)))
+def trFastReadLen (a b rlen offset lenc lenb : Int) : Int :=
+  ((((Int.fdiv b lenc) * lenb) + (Int.fmod b lenc)) - (((Int.fdiv a lenc) * lenb) + (Int.fmod a lenc)))
+def trFastNDel (a b rlen offset lenc lenb : Int) : Int :=
+  ((Int.fdiv b lenc) - (Int.fdiv a lenc))
+def trFastStartMod (a b rlen offset lenc lenb : Int) : Int :=
+  (Int.fmod a lenc)
+def trFastRowLen (a b rlen offset lenc lenb : Int) : Int :=
+  (b - a)
 /-- kernels that were really traced this run (the others fall back to the formula the proofs were written for) -/
-def traced : List String := ["trSeek", "trReadLen", "trRowLen", "trNDel", "trStartMod", "trNRows", "trBytesToRead"]
+def traced : List String := ["trSeek", "trReadLen", "trRowLen", "trNDel", "trStartMod", "trNRows", "trBytesToRead", "trFastSeek", "trFastReadLen", "trFastNDel", "trFastStartMod", "trFastRowLen"]
 
 end Gen.C17
